@@ -911,7 +911,8 @@ class BinaryDataEncoding(DataEncoding):
 
         if self.linear_adjuster is not None:
             len_bits = self.linear_adjuster(len_bits)
-        return len_bits
+        # Lookup values and calibrated reference parameters are floats, but a size in bits must be an integer
+        return int(len_bits)
 
     def parse_value(self, packet: packets.CCSDSPacket) -> common.BinaryParameter:
         """Parse a value from packet data, possibly using previously parsed data items to inform parsing.
